@@ -14,7 +14,7 @@ goroutines of the node compete for the head; `unmodelled`). The check stops comp
 import Drand.Beacon.Handler
 import Gen.Consts
 
-namespace Drand.Driver
+namespace Drand.Driver.HandlerD
 open Drand.Beacon.Handler Drand.Time
 
 structure Sim where
@@ -353,4 +353,4 @@ def handlerStep (s0 : Sim) (f : List String) : Sim × String :=
   | ["settle"] => (s, s.render "ok")
   | _ => bad
 
-end Drand.Driver
+end Drand.Driver.HandlerD
